@@ -154,14 +154,31 @@ def run(ctx):
     inl_g = single_assignments(g.node)
     s_st = [b_["v"] for n_, b_ in _fs("self.current_training_samples = $v", g.node)]
     q_st = [b_["v"] for n_, b_ in _fs("self.current_training_log_q = $v", g.node)]
-    STARTS = (START, START.replace("self.training_samples.samples.size", "len(self.training_samples.samples)"))
+    # the second operand is clamped at 0: with fewer than min_samples stored (n_initial < min_samples) an unclamped
+    # size - min_samples is negative and the slice keeps only the last min_samples - size samples (found on the pinned tree,
+    # repaired by a fix: commit)
+    START0 = START.replace("self.training_samples.samples.size - self.min_samples)", "max(0, self.training_samples.samples.size - self.min_samples))")
+    STARTS = tuple(x_ for s_ in (START0,) for x_ in (s_, s_.replace("self.training_samples.samples.size", "len(self.training_samples.samples)")))
     oks_ = len(s_st) == 1 and any(_mx2(f"self.training_samples.samples[{S_}:].copy()", s_st[0], inline=inl_g) is not None for S_ in STARTS)
     okq_ = len(q_st) == 1 and any(_mx2(f"self.training_samples.log_q[{S_}:, :].copy()", q_st[0], inline=inl_g) is not None for S_ in STARTS)
-    ctx.ob("R-SIB", "C17.3", g, "training starts at min(first sample at/above the threshold, size - min_samples): at least min_samples are used", oks_, f"`{src(s_st[0])[:120] if s_st else None}`")
+    ctx.ob("R-SIB", "C17.3", g, "training starts at min(first sample at/above the threshold, max(0, size - min_samples)): at least min_samples are used, all of them when fewer are stored", oks_, f"`{src(s_st[0])[:120] if s_st else None}`")
     ctx.ob("R-SIB", "C17.3", g, "training samples and their density rows are the same tail slice [n_train:]", oks_ and okq_, f"`{src(q_st[0])[:120] if q_st else None}`")
     tr = [c for c in walk_no_nested(g.node) if isinstance(c, ast.Call) and call_name(c) == "self.proposal.train"]
     ctx.ob("R-SIB", "C17.3", g, "the proposal is trained on exactly that slice", len(tr) == 1 and src(tr[0].args[0]) == "self.current_training_samples", "")
-    ctx.floor("C17.3", 3)
+    # the limits are the caller's for the whole run: min_samples / min_remove / max_samples are assigned once, in the
+    # constructor, from the arguments of the same name (a later store - "clamp it for the first level" - changes every
+    # later threshold and training set)
+    n_lim = 0
+    for f_ in prog.all_functions:
+        for s_ in walk_no_nested(f_.node):
+            tg_ = s_.targets if isinstance(s_, ast.Assign) else ([s_.target] if isinstance(s_, (ast.AugAssign, ast.AnnAssign)) else [])
+            for t_ in tg_:
+                if isinstance(t_, ast.Attribute) and t_.attr in ("min_samples", "min_remove", "max_samples") and f_.cls is not None and prog.cls(INS) in prog.mro(f_.cls):
+                    n_lim += 1
+                    v_ = getattr(s_, "value", None)
+                    ctx.ob("R-WRITERS", "C17.3", f_, f"`{t_.attr}` is assigned only by the constructor, from the argument of that name", f_.name == "__init__" and isinstance(s_, ast.Assign) and v_ is not None and src(v_) == t_.attr, f"`{src(s_)[:70]}`", node=s_)
+    ctx.require(n_lim >= 3, f"only {n_lim} stores of min_samples / min_remove / max_samples found in the importance sampler")
+    ctx.floor("C17.3", 6)
 
     # ---- C17.4 first-true idioms ---------------------------------------------------
     ins = prog.cls(INS)
@@ -254,6 +271,7 @@ CLAIM = {
 
 _F = "nessai/samplers/importancesampler.py"
 MUTANTS = [
+    {"id": "training-start-unclamped", "file": _F, "old": "            max(0, self.training_samples.samples.size - self.min_samples),\n        )", "new": "            self.training_samples.samples.size - self.min_samples,\n        )", "expect": "training starts at"},
     {"id": "threshold-off-by-one", "file": _F, "old": '        threshold = samples[n]["logL"].copy()', "new": '        threshold = samples[n - 1]["logL"].copy()', "expect": "n-th of the samples"},
     {"id": "threshold-interpolated", "file": _F, "old": '        threshold = samples[n]["logL"].copy()', "new": '        threshold = 0.5 * (samples[n]["logL"] + samples[n - 1]["logL"])', "expect": "n-th of the samples"},
     {"id": "min-samples-clamp-off-by-one", "file": _F, "old": "            n = max(0, samples.size - self.min_samples)\n", "new": "            n = max(0, samples.size - self.min_samples + 1)\n", "expect": "clamp semantics"},
@@ -262,7 +280,7 @@ MUTANTS = [
     {"id": "min-remove-clamp-value", "file": _F, "old": "            n = self.min_remove\n", "new": "            n = self.min_remove - 1\n", "expect": "clamp semantics"},
     {"id": "cap-ignores-nlive", "file": _F, "old": "            n = samples.size - self.max_samples + self.nlive\n", "new": "            n = samples.size - self.max_samples\n", "expect": "clamp semantics"},
     {"id": "cap-before-min-samples", "file": _F, "edits": [(_F, "        if (\n            self.draw_constant\n            and self.max_samples\n            and ((samples.size - n) + self.nlive) > self.max_samples\n        ):\n            n = samples.size - self.max_samples + self.nlive\n            logger.warning(\n                \"Next level would have more than max samples, \"\n                f\"removing {n} samples\"\n            )\n\n", ""), (_F, "        if (samples.size - n) < self.min_samples:\n            logger.warning(\n                f\"Cannot remove {n} from", "        if (\n            self.draw_constant\n            and self.max_samples\n            and ((samples.size - n) + self.nlive) > self.max_samples\n        ):\n            n = samples.size - self.max_samples + self.nlive\n        if (samples.size - n) < self.min_samples:\n            logger.warning(\n                f\"Cannot remove {n} from")], "expect": "clamp semantics"},
-    {"id": "training-floor-dropped", "file": _F, "old": "            self.training_samples.samples.size - self.min_samples,\n        )", "new": "            self.training_samples.samples.size,\n        )", "expect": "training starts at"},
+    {"id": "training-floor-dropped", "file": _F, "old": "            max(0, self.training_samples.samples.size - self.min_samples),\n        )", "new": "            self.training_samples.samples.size,\n        )", "expect": "training starts at"},
     {"id": "training-logq-misaligned", "file": _F, "old": "        self.current_training_log_q = self.training_samples.log_q[\n            n_train:, :\n        ].copy()", "new": "        self.current_training_log_q = self.training_samples.log_q[\n            n_train + 1 :, :\n        ].copy()", "expect": "same tail slice"},
     {"id": "quantile-first-true-raises", "file": _F, "old": "        n = np.argmax(a >= cutoff)", "new": "        n = np.where(a >= cutoff)[0][0]", "expect": "first-true search"},
     {"id": "new-argmax-site", "file": _F, "old": "        n_removed = self.training_samples.remove_samples()\n", "new": "        n_removed = self.training_samples.remove_samples()\n        n_chk = np.argmax(self.live_points_unit[\"logL\"] >= self.log_likelihood_threshold)\n", "expect": "first-true search"},
